@@ -28,6 +28,13 @@ DEPTH = {"quick": 4, "thorough": 5}
 
 def run_history(shape, hist):
     w = FaultWorld(shape)
+    # error-reporting mode of the session: FormulaError raised (default) / the original exception raised /
+    # FormulaError printed instead of raised; the traceback and the error are recorded in every mode
+    mode = shape.get("mode")
+    if mode == "raw":
+        mx.use_formula_error(False)
+    elif mode == "handled":
+        mx.handle_formula_error(True)
     viols = []
     obs = []
     case = {"shape": shape, "history": hist}
@@ -49,7 +56,12 @@ def run_history(shape, hist):
             continue
         before = w.held_map() if last else None
         nf0 = len(TICK.fired)
-        r = raw_observe(lambda: O._apply_impl(w.m, op))
+        if mode == "handled":
+            import contextlib, io
+            with contextlib.redirect_stderr(io.StringIO()):
+                r = raw_observe(lambda: O._apply_impl(w.m, op))
+        else:
+            r = raw_observe(lambda: O._apply_impl(w.m, op))
         obs.append(("ok", render(r[1])) if r[0] == "ok" else ("exc", type(r[1]).__name__))
         if not last:
             continue
@@ -62,7 +74,15 @@ def run_history(shape, hist):
         e = rr[1]
         failed = 1
         handled = int(len(rt.fired) > 1)
-        if r[0] != "exc" or not isinstance(r[1], FormulaError):
+        if mode == "raw":
+            if r[0] != "exc" or type(r[1]) is not type(e):
+                bad("no-original-error", {"query": op, "got": obs[-1]}, type(e).__name__)
+                break
+        elif mode == "handled":
+            if r[0] != "ok":
+                bad("not-handled", {"query": op, "got": obs[-1]}, "the error is printed, not raised")
+                break
+        elif r[0] != "exc" or not isinstance(r[1], FormulaError):
             bad("no-formula-error", {"query": op, "got": obs[-1]}, type(e).__name__)
             break
         tb = safe(lambda: mx.get_traceback())
@@ -105,7 +125,12 @@ def shapes(tier):
            {"kind": "item", "kinds": ["ValueError", "None"]},
            {"kind": "rec", "kinds": ["ValueError", "None"]},
            {"kind": "rec", "uncached": True, "kinds": ["ValueError"]},
-           {"kind": "rec", "maxdepth": 2, "kinds": ["ValueError"]}]
+           {"kind": "rec", "maxdepth": 2, "kinds": ["ValueError"]},
+           {"kind": "catcher", "kinds": ["ValueError", "None"], "mode": "raw"},
+           {"kind": "catcher", "kinds": ["ValueError", "None"], "mode": "handled"},
+           {"kind": "item", "kinds": ["ValueError"], "mode": "raw"},
+           {"kind": "dag", "n": 3, "edges": [[0, 1], [1, 2]], "uncached": [1], "kinds": ["ValueError"], "mode": "raw"},
+           {"kind": "dag", "n": 3, "edges": [[0, 1], [1, 2]], "uncached": [], "kinds": ["ValueError"], "mode": "handled"}]
     nmax = 3 if tier == "quick" else 4
     for n in range(2, nmax + 1):
         for edges in all_dags(n):
@@ -161,7 +186,9 @@ shrink_candidates = c05.shrink_candidates
 
 
 def script(case):
-    return c05.script(case) + "\nprint(mx.get_traceback())"
+    pre = {"raw": "mx.use_formula_error(False)\n", "handled": "mx.handle_formula_error(True)\n"}.get(
+        case["shape"].get("mode"), "")
+    return c05.script(case).replace("armed = {}", pre + "armed = {}", 1) + "\nprint(mx.get_traceback())"
 
 
 def coverage(agg, tier):
